@@ -20,10 +20,13 @@ sys.path.insert(0, os.path.join(os.path.dirname(os.path.abspath(__file__)), ".."
 
 RW = K.CKF_SERIAL_SESSION | K.CKF_RW_SESSION
 CALLS = ["create_small", "create_large", "create_rsa", "create_private", "set_large", "set_small", "set_private", "copy", "destroy"]
+# the key-generation / unwrap / derive paths: each stores the key material in a second transaction with its own commit tail
+KEYPATH = ["genkey", "genpair_ec", "gen_des3", "gen_generic", "genpair_rsa", "genpair_ed", "genpair_dsa", "genpair_dh", "unwrap_secret", "unwrap_rsa",
+           "derive_sym", "derive_dh", "derive_concat"]
 
 
 def strategy():
-    return st.fixed_dictionaries({"fault": st.just(True), "call": st.sampled_from(CALLS), "size": st.one_of(st.integers(0, 200), st.integers(3900, 4300), st.integers(8000, 9000)),
+    return st.fixed_dictionaries({"fault": st.just(True), "call": st.sampled_from(CALLS + CALLS + KEYPATH), "size": st.one_of(st.integers(0, 200), st.integers(3900, 4300), st.integers(8000, 9000)),
                                   "bsize": st.integers(4000, 9000), "seed": st.integers(0, 255), "extra_objs": st.integers(0, 1),
                                   # which operation: a position among the operations that really touch the disk (open, truncate, flush, close, lock,
                                   # remove, rename, directory listing) mostly, any operation (incl. the buffered fwrite/fread) sometimes
@@ -60,20 +63,31 @@ def prepare(chk16, ctx, prog, stage, tpl):
     for i in range(prog["extra_objs"]):
         mk("X-extra-%d" % i, T(("CKA_CLASS", "CKO_DATA"), ("CKA_TOKEN", True), ("CKA_PRIVATE", bool(i % 2)), ("CKA_VALUE", b"extra-%d" % i * 3)))
     val = bytes((sd * 3 + i * 5) & 0xFF for i in range(prog["size"]))
+    if prog["call"] in KEYPATH:
+        import c16
+        c16.prepare_extra(w, s, objs, sd)
     return w, s, objs, pins, val, t0, t1
 
 
-def strip(view):
+def strip(view, mask=False):
     """views compared on PINs and objects (token flags change with every login attempt)"""
     if view is None:
         return None
+    for r in (view.values() if mask else []):
+        # random material of keys made by the call itself (labels N-new*) is compared by presence only (a DH / DSA value may
+        # have a leading zero octet less in one run than in another)
+        for name, attrs in (r.get("objs") or {}).items():
+            if name.startswith("N-new"):
+                for t in (str(K.CKA_VALUE), str(K.CKA_MODULUS)):
+                    if isinstance(attrs.get(t), str) and not attrs[t].startswith(("ERR", "raw")):
+                        attrs[t] = "present" if attrs[t] else "empty"
     return {lab: {"so": r.get("so"), "user": r.get("user"), "objs": r.get("objs"), "error": r.get("error")} for lab, r in view.items()}
 
 
-def run(ctx, prog, stage, tpl):
-    """-> dict(rv, fired, op, old, mem, disk, ref_rv, ref_new) or None when the chosen operation does not exist"""
+def reference(ctx, prog, stage, tpl):
+    """fault-free traced run of the call -> (rv, list of operation names, view of a fresh process afterwards)"""
     chk16 = ctx.shared.get("_c16") or ctx.shared.setdefault("_c16", _c16())
-    # 1. fault-free traced run: operations of the call and the reference 'after' view
+    mask = prog["call"].startswith("gen")
     w, s, objs, pins, val, t0, t1 = prepare(chk16, ctx, prog, stage, tpl)
     w.fsmode(mode="trace", dir=stage.sb.tokendir)
     ref_rv = chk16.do_call(w, s, prog["call"], prog, val, objs, t0, t1, {k: (list(v[0]), list(v[1])) for k, v in pins.items()})
@@ -84,11 +98,58 @@ def run(ctx, prog, stage, tpl):
     w.C_Finalize()
     stage.w.close()
     stage.w = None
-    ref_new = strip(chk16.view_of_tree(ctx, stage.sb.tokendir, pins))
-    eligible = [i for i, o in enumerate(ops) if prog["anyop"] or o not in ("fwrite", "fread")]
+    ref_new = strip(chk16.view_of_tree(ctx, stage.sb.tokendir, pins), mask)
+    return ref_rv, ops, ref_new
+
+
+def eligible_ops(ops, anyop):
+    return [i for i, o in enumerate(ops) if anyop or o not in ("fwrite", "fread")]
+
+
+SWEEP_PROG = {"fault": True, "size": 100, "bsize": 5000, "seed": 7, "extra_objs": 0, "pos": 0, "anyop": False, "errno": ""}
+
+
+def sweep_cells(ctx, tier, shard, nshards, stage, tpl):
+    """Deterministic small-scope sweep of the fault leg (no generator involved): for EVERY call kind, the operations of the call that really
+    touch the disk are failed one at a time - thorough: every one of them, once and sticky; quick: each of the last 32 (the transaction that
+    stores the key material / the final commit) once and sticky, and every 24th of the others.  Yields programs with an exact operation index."""
+    cells = []
+    for call in CALLS + KEYPATH:
+        prog = dict(SWEEP_PROG, call=call, sticky=False)
+        key = ("ref", call)
+        if key not in ctx.shared:
+            ctx.shared[key] = reference(ctx, prog, stage, tpl)
+        n = len(eligible_ops(ctx.shared[key][1], False))
+        for i in range(n):
+            tail = i >= n - 32
+            if tier != "quick" or tail:
+                cells.append(dict(prog, kidx=i, sticky=False, sweep=True))
+                cells.append(dict(prog, kidx=i, sticky=True, sweep=True))
+            elif i % 24 == 7:
+                cells.append(dict(prog, kidx=i, sticky=bool((i // 24) % 2), sweep=True))
+    return [c for j, c in enumerate(cells) if j % nshards == shard], len(cells)
+
+
+def run(ctx, prog, stage, tpl):
+    """-> dict(rv, fired, op, old, mem, disk, ref_rv, ref_new) or None when the chosen operation does not exist"""
+    chk16 = ctx.shared.get("_c16") or ctx.shared.setdefault("_c16", _c16())
+    mask = prog["call"].startswith("gen")
+    # 1. fault-free traced run: operations of the call and the reference 'after' view (the sweep computes it once per call kind)
+    key = ("ref", prog["call"])
+    if prog.get("sweep") and all(prog.get(f) == v for f, v in SWEEP_PROG.items()):
+        if key not in ctx.shared:
+            ctx.shared[key] = reference(ctx, prog, stage, tpl)
+        ref_rv, ops, ref_new = ctx.shared[key]
+    else:
+        ref_rv, ops, ref_new = reference(ctx, prog, stage, tpl)
+    eligible = eligible_ops(ops, prog["anyop"])
     if not eligible:
         return None
     k = eligible[prog["pos"] % len(eligible)]
+    if prog.get("kidx") is not None:
+        if prog["kidx"] >= len(eligible):
+            return None
+        k = eligible[prog["kidx"]]
     if prog.get("opname"):
         named = [i for i in eligible if ops[i] == prog["opname"]]
         if not named:
@@ -96,7 +157,7 @@ def run(ctx, prog, stage, tpl):
         k = named[prog["pos"] % len(named)]
     # 2. the faulted run on a fresh copy of the same scenario
     w, s, objs, pins, val, t0, t1 = prepare(chk16, ctx, prog, stage, tpl)
-    old = strip(chk16.view_of_tree(ctx, stage.sb.tokendir, pins))
+    old = strip(chk16.view_of_tree(ctx, stage.sb.tokendir, pins), mask)
     w.fsmode(mode="fault", k=k, sticky=bool(prog["sticky"]), kind=prog["errno"], dir=stage.sb.tokendir)
     rv = chk16.do_call(w, s, prog["call"], prog, val, objs, t0, t1, {k_: (list(v[0]), list(v[1])) for k_, v in pins.items()})
     rep2 = w.fsreport(trace=True)
@@ -107,14 +168,14 @@ def run(ctx, prog, stage, tpl):
         w.C_Logout(s=s)
     except Exception:
         pass
-    mem = strip(chk16.view(w, None, pins))
+    mem = strip(chk16.view(w, None, pins), mask)
     try:
         w.C_Finalize()
     except Exception:
         pass
     stage.w.close()
     stage.w = None
-    disk = strip(chk16.view_of_tree(ctx, stage.sb.tokendir, pins))
+    disk = strip(chk16.view_of_tree(ctx, stage.sb.tokendir, pins), mask)
     ctx.steps += 2
     return {"rv": rv, "fired": len(fired), "op": ops[k], "k": k, "nops": len(ops), "old": old, "mem": mem, "disk": disk, "ref_rv": ref_rv, "ref_new": ref_new}
 
@@ -146,6 +207,7 @@ def diff(a, b):
 
 TARGET = {"set_large": "B-big-data", "set_small": "C-cert", "set_private": "A-private-aes", "destroy": "C-cert", "copy": None, "create_small": None, "create_large": None,
           "create_rsa": None, "create_private": None}
+TARGET.update({c: None for c in KEYPATH})
 
 
 def classify(call, a, b, in_process):
